@@ -16,14 +16,12 @@ def worker_refines_fresh_full : Prop :=
 
 /-- It is false of the code as it is. Independent counterexamples (`Witness.lean`), each
 evaluated in the model by the kernel:
-F10 (panic), F11b (fresh output deleted after
-remove + re-create), F12 (failed require not retried), F13 (filter-only configuration
+F12 (failed require not retried), F13 (filter-only configuration
 change), E/F25 (stale output of a source that now fails). -/
 theorem worker_refines_fresh_full_false : ¬ worker_refines_fresh_full := by
   intro h
-  exact witness_F10_not_refines (h wP wInit 0 hF10 wWF)
+  exact witness_F13_not_refines (h wP wInit 0 hF13 wWF)
 
-theorem full_false_F11b : ¬ Refines wP wInit 0 hF11b := witness_F11b_not_refines
 theorem full_false_F12 : ¬ Refines wP wInit12 0 hF12 := witness_F12_not_refines
 theorem full_false_F13 : ¬ Refines wP wInit 0 hF13 := witness_F13_not_refines
 theorem full_false_E : ¬ Refines wP wInit 0 hE := witness_E_not_refines
@@ -33,10 +31,7 @@ example : WF wP wInit ∧ WF wP wInit12 := ⟨wWF, wWF12⟩
 
 /-- **Partial theorem, proved for every well-formed project and every history inside `H10`**
 (`H10 = sessionRegion … = none`: the decidable monitor `regionOf` never fires — i.e. the
-history never (F10) removes a directory holding an item with external dependencies or a
-depended-upon file,
-(F11b) re-creates a removed source before its deletion ran, (F12) creates a file that changes
-the result of a finished item, (F13) changes the configuration without changing its hash,
+history never (F12) creates a file that changes the result of a finished item, (F13) changes the configuration without changing its hash,
 (E) lets an item fail over an existing output, (X) leaves the watcher protocol):
 no step panics or hangs and after the closing `process` the output folder equals the
 from-scratch run (`freshOut`): regenerated outputs, outputs of removed sources deleted, foreign
@@ -80,11 +75,20 @@ nothing else pending, now deletes `out/a` — the former counterexample refines 
 example : Refines wP wInit 0 hF11 :=
   worker_refines_fresh_partial wP wInit 0 hF11 wWF hF11_inside
 
+/-- regression (F11b, fixed in /repo): remove + re-create of a source before the next pass -/
+example : Refines wP wInit 0 hF11b :=
+  worker_refines_fresh_partial wP wInit 0 hF11b wWF hF11b_inside
+
+/-- regression (F10/F10b, fixed in /repo): removing the folder of a bundle entry and then
+editing its dependency neither panics nor leaves anything stale -/
+example : Refines wP wInit 0 hF10 :=
+  worker_refines_fresh_partial wP wInit 0 hF10 wWF hF10_inside
+
 /-- `no_loop`: `process` terminates on EVERY state — with one unit of fuel the work loop never
 reports `hang`; the progress argument is `passNodes_doneCount`: a pass finishes every
 pending item, so `done_count == total_not_done` after the first pass. (Relies on the
-modelled fact that `advance_work` never leaves an item `InProgress`, i.e. that no rule
-overrides `Rule::require_content`; checked by the correspondence.) -/
+modelled fact that `advance_work` never leaves an item `InProgress`, i.e. that no built-in
+rule overrides `Rule::require_content`; for rules that do, see `on_hold_terminates`.) -/
 theorem no_loop (P : Params) (fuel : Nat) (st : State) : processTree P (fuel + 1) st ≠ .hang :=
   processTree_no_hang P fuel st
 
@@ -96,24 +100,21 @@ theorem no_loop_run (P : Params) (fuel : Nat) (init : Fs) (cfg : Cfg) (h : List 
   unfold start
   exact processTree_no_hang P fuel _
 
-/-- What `no_loop` rests on, made explicit (finding F26): in the loop's counter logic
-(`genLoop`), once a pass finishes some but not all of the `total` pending items, NO sequence
-of later passes ever satisfies `done_count == total_not_done` — the loop cannot exit. So
-termination needs every pending item to finish in the first pass, which holds for the model
-(`passNodes_doneCount`) because no built-in rule overrides `Rule::require_content`; the
-harness reproduces the hang on the real `WorkerTree` with a user-defined rule. -/
-theorem on_hold_never_terminates (total d : Nat) (ds : List Nat) (h0 : 0 < d) (h1 : d < total) :
-    genLoop total total (d :: ds) = false := by
-  simp only [genLoop]
-  have h2 : min d total = d := by omega
-  rw [h2]
-  have h3 : d ≠ total := by omega
-  simp only [h3, if_false]
-  exact genLoop_stuck total ds _ (by omega)
+/-- The loop's counter logic when items CAN be put on hold (a user-defined rule overriding
+`Rule::require_content`), after the fix of F26 (`genLoop`: finished items counted across
+passes, a pass that finishes nothing ends with an error): whatever numbers of items finish
+in the successive passes, the loop has ended — `break` or error — within `pending + 1`
+passes. Before the fix (`done_count` reset every pass but compared with the total computed
+once) the loop could never exit once a pass finished some but not all items. -/
+theorem on_hold_terminates (total acc pending : Nat) (ds : List Nat) (h : pending < ds.length) :
+    genLoop total acc pending ds ≠ .running :=
+  genLoop_terminates total ds acc pending h
 
-/-- non-vacuity (and the other direction): all items finishing in the first pass exits; one of
-two on hold never exits, however many passes follow -/
-example : genLoop 2 2 [2] = true ∧ genLoop 2 2 [1, 1, 0, 0, 0] = false := by decide
+/-- non-vacuity and regression: all items in the first pass exits; the former hang (one of
+two items on hold for ever: passes finishing 1, 0, …) now ends with an error in pass 2;
+items finishing over several passes exit -/
+example : genLoop 2 0 2 [2] = .exits ∧ genLoop 2 0 2 [1, 0, 0] = .errors
+    ∧ genLoop 3 0 3 [1, 1, 1, 0] = .exits := by decide
 
 /-- non-vacuity: a state with pending work on which `process` really runs the loop -/
 example : ∃ st, processTree wP 1 wPending = .ok st ∧ notDoneCount wPending.nodes = 3 ∧ notDoneCount st.nodes = 0 := by
